@@ -1126,9 +1126,21 @@ func (p *printer) expr(t *Term, top bool) string {
 	return sb.String()
 }
 
+// Query is one solver query in two equivalent renderings: shared sub-terms as
+// define-fun macros ("def": fast on z3 5.x) or as declared constants with defining
+// equalities ("eq": fast on z3 4.8.12). Both are produced from the same term DAG.
+type Query struct {
+	Def string
+	Eq  string
+}
+
 // Script renders a complete SMT-LIB2 script (declarations, definitions, assertions,
 // check-sat) asserting all the given terms.
-func (c *Ctx) Script(asserts []*Term, extra []*Term) string {
+func (c *Ctx) Script(asserts []*Term, extra []*Term) *Query {
+	return &Query{Def: c.script(asserts, extra, false), Eq: c.script(asserts, extra, true)}
+}
+
+func (c *Ctx) script(asserts []*Term, extra []*Term, eqForm bool) string {
 	p := &printer{c: c, refs: map[int]int{}, seen: map[int]bool{}, named: map[int]string{}, sb: &strings.Builder{}}
 	for _, a := range asserts {
 		p.count(a)
@@ -1167,7 +1179,11 @@ func (c *Ctx) Script(asserts []*Term, extra []*Term) string {
 		}
 		if p.refs[t.id] >= 2 {
 			name := fmt.Sprintf("t%d", t.id)
-			fmt.Fprintf(sb, "(define-fun %s () %s %s)\n", name, t.sort, p.expr(t, true))
+			if eqForm {
+				fmt.Fprintf(sb, "(declare-const %s %s)\n(assert (= %s %s))\n", name, t.sort, name, p.expr(t, true))
+			} else {
+				fmt.Fprintf(sb, "(define-fun %s () %s %s)\n", name, t.sort, p.expr(t, true))
+			}
 			p.named[t.id] = name
 		}
 	}
